@@ -40,9 +40,12 @@ class Matmul(Function):
         arg_grads = [None] * len(matrix_args)
 
         # input_1 gradient
+        # a vector rhs gives a (*batch, N) output: the last dimension of grad_output is then not a column dimension
+        is_vector = rhs.ndimension() == 1
+
         if any(ctx.needs_input_grad[2:]):
-            rhs = rhs.unsqueeze(-1) if (rhs.ndimension() == 1) else rhs
-            grad_output_matrix = grad_output.unsqueeze(-1) if grad_output.ndimension() == 1 else grad_output
+            rhs = rhs.unsqueeze(-1) if is_vector else rhs
+            grad_output_matrix = grad_output.unsqueeze(-1) if is_vector else grad_output
             arg_grads = ctx.representation_tree(*matrix_args)._bilinear_derivative(grad_output_matrix, rhs)
 
         # input_2 gradient
@@ -52,7 +55,7 @@ class Matmul(Function):
             else:
                 linear_op = ctx.representation_tree(*matrix_args)
 
-            if grad_output.dim() == 1:
+            if is_vector:
                 # Confusing Cublas_Sgemv bug when grad_output is single dimensional on GPU.
                 rhs_grad = linear_op._t_matmul(grad_output.unsqueeze(-1)).squeeze(-1)
             else:
